@@ -402,6 +402,39 @@ func genKvSql(repo string) (string, error) {
 		}
 		fmt.Fprintf(&b, "Definition gen_%s_commit : string := %s.\n", be.name, coqStr(how))
 	}
+	// psqlKV.mutate: how the transaction is begun and the raw text of its
+	// SELECT (does it lock the row it is going to update?)
+	{
+		begin, sel := "", ""
+		if fd := p.funcDecl("psqlKV", "mutate"); fd != nil && fd.Body != nil {
+			ast.Inspect(fd.Body, func(n ast.Node) bool {
+				c, ok := n.(*ast.CallExpr)
+				if !ok {
+					return true
+				}
+				fun := p.src(c.Fun)
+				if strings.HasSuffix(fun, ".Begin") || strings.HasSuffix(fun, ".BeginTx") {
+					begin = p.src(c)
+				}
+				if fun == "fmt.Sprintf" && len(c.Args) > 0 && sel == "" {
+					if text, ok := strLit(c.Args[0]); ok {
+						t := strings.ToLower(strings.Join(strings.Fields(text), " "))
+						if strings.HasPrefix(t, "select") {
+							sel = t
+						}
+					}
+				}
+				return true
+			})
+		}
+		fmt.Fprintf(&b, "Definition gen_psql_mutate_begin : string := %s.\n", coqStr(begin))
+		fmt.Fprintf(&b, "Definition gen_psql_mutate_select : string := %s.\n", coqStr(sel))
+		lock := "false"
+		if strings.Contains(sel, " for update") || strings.Contains(sel, " for no key update") {
+			lock = "true"
+		}
+		fmt.Fprintf(&b, "Definition gen_psql_mutate_select_locks_row : bool := %s.\n", lock)
+	}
 	helper := ""
 	if fd := p.funcDecl("", "sqlite3CommitTx"); fd != nil && fd.Body != nil {
 		var parts []string
